@@ -195,6 +195,9 @@ impl<const N: u32> PxE2<{ N }> {
                         k_z += 1;
                         exp_z &= 0x3;
                     }
+                    if (frac64_z & 0x1) != 0 {
+                        bits_more = true;
+                    }
                     frac64_z = (frac64_z >> 1) & 0x7FFF_FFFF_FFFF_FFFF;
                 } else {
                     //for subtract cases
@@ -238,13 +241,16 @@ impl<const N: u32> PxE2<{ N }> {
                     if reg_z + 4 <= N {
                         bit_n_plus_one =
                             ((0x_8000_0000_0000_0000_u64 >> (N - reg_z - 2)) & frac64_z) != 0;
-                        bits_more =
-                            ((0x_7FFF_FFFF_FFFF_FFFF_u64 >> (N - reg_z - 2)) & frac64_z) != 0;
+                        if ((0x_7FFF_FFFF_FFFF_FFFF_u64 >> (N - reg_z - 2)) & frac64_z) != 0 {
+                            bits_more = true;
+                        }
                         frac_z &= Self::mask();
                     } else {
                         if reg_z == (N - 2) {
                             bit_n_plus_one = (exp_z & 0x2) != 0;
-                            bits_more = (exp_z & 0x1) != 0;
+                            if (exp_z & 0x1) != 0 {
+                                bits_more = true;
+                            }
                             exp_z = 0;
                         } else if reg_z == (N - 3) {
                             bit_n_plus_one = (exp_z & 0x1) != 0;
